@@ -15,6 +15,8 @@ def build():
     src = os.path.join(W.ROOT, 'replay')
     open(os.path.join(d, 'Cargo.toml'), 'w').write(open(os.path.join(src, 'Cargo.toml.in')).read().replace('@REPO@', W.REPO))
     shutil.copy(os.path.join(src, 'src', 'main.rs'), os.path.join(d, 'src', 'main.rs'))
+    from . import hlgen
+    _built['hl'] = hlgen.generate(W.REPO, os.path.join(d, 'src'))
     if os.path.exists(os.path.join(W.REPO, 'Cargo.lock')) and not os.path.exists(os.path.join(d, 'Cargo.lock')):
         # start from the repository's lock file so that offline resolution picks the cached versions
         shutil.copy(os.path.join(W.REPO, 'Cargo.lock'), os.path.join(d, 'Cargo.lock'))
